@@ -817,7 +817,10 @@ func (e Event) OnEveryPathToReturn() (ok bool, inLoop bool) {
 			if len(b.Instrs) == 0 {
 				continue
 			}
-			if _, isRet := b.Instrs[len(b.Instrs)-1].(*ssa.Return); isRet {
+			if ret, isRet := b.Instrs[len(b.Instrs)-1].(*ssa.Return); isRet {
+				if isErrorReturn(ret) {
+					continue // a return that reports failure is not a normal return
+				}
 				if !blk.Dominates(b) {
 					ok = false
 				}
@@ -837,4 +840,17 @@ func (e Event) OnEveryPathToReturn() (ok bool, inLoop bool) {
 // LoopOf returns the innermost loop containing the event in its own activation.
 func (e Event) LoopOf() *Loop {
 	return innermost(e.Ev.E.Loops(e.Ev.Fn), e.Instr.Block())
+}
+
+// isErrorReturn: the last result has type error and is not the nil constant.
+func isErrorReturn(ret *ssa.Return) bool {
+	if len(ret.Results) == 0 {
+		return false
+	}
+	last := ret.Results[len(ret.Results)-1]
+	if !types.Identical(last.Type(), types.Universe.Lookup("error").Type()) {
+		return false
+	}
+	c, isConst := last.(*ssa.Const)
+	return !isConst || c.Value != nil
 }
